@@ -756,3 +756,114 @@ Proof.
     rewrite check_abs. destruct (check_name s sw false); [split; [reflexivity|exact Hwf]|].
     split; [unfold abs; rewrite adel_amap; reflexivity | apply aall_adel; exact Hwf].
 Qed.
+
+(* ================= part 3: histories ================= *)
+(* the history stays inside the specified inputs along the reference run *)
+Fixpoint disciplined (t : sstate) (qs : list request) : bool :=
+  match qs with
+  | [] => true
+  | q :: rest => (disc t q =? 0) && disciplined (fst (spec_step t q)) rest
+  end.
+
+Theorem run_refines_from : forall qs s,
+  wf s = true -> disciplined (abs s) qs = true ->
+  spec_run (abs s) qs = (abs (fst (api_run cfg_now s qs)), snd (api_run cfg_now s qs)).
+Proof.
+  induction qs as [|q t IH]; intros s Hwf D; cbn [api_run spec_run disciplined] in *; [reflexivity|].
+  apply andb_true_iff in D as [D1 D2]. apply Z.eqb_eq in D1.
+  pose proof (step_sim s q Hwf D1) as H. destruct (api_step cfg_now s q) as [s1 r]. destruct H as [H1 H2].
+  rewrite H1 in *. cbn [fst] in D2. specialize (IH s1 H2 D2). rewrite IH.
+  destruct (api_run cfg_now s1 t) as [s2 rs]. reflexivity.
+Qed.
+
+Theorem run_refines : forall qs,
+  disciplined sstate0 qs = true ->
+  snd (api_run cfg_now srv0 qs) = snd (spec_run sstate0 qs) /\
+  abs (fst (api_run cfg_now srv0 qs)) = fst (spec_run sstate0 qs).
+Proof.
+  intros qs D. pose proof (run_refines_from qs srv0 eq_refl D) as H. cbn [abs amap map srv0] in H.
+  change (@nil (Z * sswamp)) with sstate0 in H. rewrite H. split; reflexivity.
+Qed.
+
+(* the hypothesis is satisfiable by a history that creates, overwrites, increments (wrap-around and a
+   failing condition), pushes, deletes down to an empty swamp and re-creates *)
+Definition kv1 (k : Z) (v : setval) : kv := {| kv_key := k; kv_val := v; kv_meta := meta0 |}.
+Definition ex_history : list request :=
+  [ QSet 1 true true (Some [kv1 1 (SVSc TI64 5); kv1 2 (SVSc TU8 255)]);
+    QSet 1 true true (Some [kv1 1 (SVSc TI64 5)]);
+    QSet 1 true true (Some [{| kv_key := 1; kv_val := SVSc TI64 6;
+                               kv_meta := {| m_cat := 3; m_cby := 7; m_mat := 0; m_mby := 0; m_exp := 0 |} |}]);
+    QInc TU8 1 2 1 None None None;
+    QInc TU8 1 2 1 (Some (1, 5)) None None;
+    QPush 1 [(3, [1; 2; 2])];
+    QSlDel 1 [(3, [1])];
+    QGet [(1, Some [1; 2; 3; 4])];
+    QShiftByKeys 1 [1; 2];
+    QSlDel 1 [(3, [2])];
+    QIsSwampExist 1;
+    QSet 1 true false (Some [kv1 1 SVVoid]);
+    QGetAll 1 ].
+Example ex_history_disciplined :
+  disciplined sstate0 ex_history = true /\
+  snd (api_run cfg_now srv0 ex_history) =
+  [ RSet [(None, [(1, StNew); (2, StNew)])];
+    RSet [(None, [(1, StNothing)])];
+    RSet [(None, [(1, StUpdated)])];
+    RInc 0 true None;
+    RInc 0 false None;
+    ROk; ROk;
+    RGet [(true, [ {| v_key := 1; v_exist := true; v_sc := Some (TI64, 6); v_sl := [];
+                      v_meta := {| m_cat := 3; m_cby := 7; m_mat := 0; m_mby := 0; m_exp := 0 |} |};
+                   {| v_key := 2; v_exist := true; v_sc := Some (TU8, 0); v_sl := []; v_meta := meta0 |};
+                   {| v_key := 3; v_exist := true; v_sc := None; v_sl := [2]; v_meta := meta0 |};
+                   view_missing 4 ])];
+    RViews [ {| v_key := 1; v_exist := true; v_sc := Some (TI64, 6); v_sl := [];
+                v_meta := {| m_cat := 3; m_cby := 7; m_mat := 0; m_mby := 0; m_exp := 0 |} |};
+             {| v_key := 2; v_exist := true; v_sc := Some (TU8, 0); v_sl := []; v_meta := meta0 |} ];
+    ROk;
+    RBool false;
+    RSet [(None, [(1, StNew)])];
+    RViews [ {| v_key := 1; v_exist := true; v_sc := None; v_sl := []; v_meta := meta0 |} ] ].
+Proof. vm_compute. split; reflexivity. Qed.
+
+(* ---- what fails outside the hypothesis, and what failed at the pinned commit ---- *)
+Definition differ_at (a b : list response) (i : nat) (x y : response) : Prop :=
+  nth_error a i = Some x /\ nth_error b i = Some y /\ x <> y.
+
+Definition w_class1 := [ QSet 1 true true (Some [kv1 1 (SVSc TI64 1)]); QSet 1 true true (Some [kv1 1 SVVoid]); QGet [(1, Some [1])] ].
+Definition w_class2 := [ QPush 1 [(1, [1])]; QSet 1 true true (Some [kv1 1 (SVSl [2])]); QGet [(1, Some [1])] ].
+Definition w_class3 := [ QSet 1 true true (Some [kv1 1 (SVSc TI64 1); kv1 2 (SVSc TI64 1)]); QSlDel 1 [(1, [1])]; QIsKeyExist 1 1 ].
+Definition w_class4 := [ QSet 1 true true (Some [kv1 2 (SVSc TI64 1)]); QInc TI64 1 1 1 (Some (1, 2)) None None; QInc TI8 1 1 1 None None None ].
+Definition w_class5 :=
+  let it := {| kv_key := 1; kv_val := SVSc TI64 1; kv_meta := {| m_cat := 0; m_cby := 7; m_mat := 0; m_mby := 0; m_exp := 0 |} |} in
+  [ QSet 1 true true (Some [it]); QSet 1 true true (Some [it]) ].
+
+Definition first_class (qs : list request) : Z :=
+  (fix go (t : sstate) (qs : list request) : Z :=
+     match qs with
+     | [] => 0
+     | q :: rest => if disc t q =? 0 then go (fst (spec_step t q)) rest else disc t q
+     end) sstate0 qs.
+
+Theorem refines_refuted_outside_spec :
+  (first_class w_class1 = 1 /\ exists x y, differ_at (snd (api_run cfg_now srv0 w_class1)) (snd (spec_run sstate0 w_class1)) 2 x y) /\
+  (first_class w_class2 = 2 /\ exists x y, differ_at (snd (api_run cfg_now srv0 w_class2)) (snd (spec_run sstate0 w_class2)) 2 x y) /\
+  (first_class w_class3 = 3 /\ exists x y, differ_at (snd (api_run cfg_now srv0 w_class3)) (snd (spec_run sstate0 w_class3)) 2 x y) /\
+  (first_class w_class4 = 4 /\ exists x y, differ_at (snd (api_run cfg_now srv0 w_class4)) (snd (spec_run sstate0 w_class4)) 2 x y) /\
+  (first_class w_class5 = 5 /\ exists x y, differ_at (snd (api_run cfg_now srv0 w_class5)) (snd (spec_run sstate0 w_class5)) 1 x y).
+Proof.
+  repeat split; try (vm_compute; reflexivity);
+    (eexists; eexists; unfold differ_at; vm_compute; split; [reflexivity|split; [reflexivity|discriminate]]).
+Qed.
+
+(* the pinned commit: sticky change flags, the self-deadlock, the panic in Get *)
+Definition w_sticky := [ QSet 1 true true (Some [kv1 1 (SVSc TI64 1)]); QSet 1 true true (Some [kv1 1 (SVSc TI64 1)]) ].
+Definition w_hang := [ QPush 1 [(1, [1])]; QSlDel 1 [(1, [1])] ].
+Definition w_panic := [ QSet 1 true true (Some [kv1 1 (SVSc TI64 1)]); QGet [(1, Some [])] ].
+Theorem refuted_at_pinned_commit :
+  disciplined sstate0 w_sticky = true /\
+  nth_error (snd (api_run cfg_pinned srv0 w_sticky)) 1 = Some (RSet [(None, [(1, StUpdated)])]) /\
+  nth_error (snd (spec_run sstate0 w_sticky)) 1 = Some (RSet [(None, [(1, StNothing)])]) /\
+  nth_error (snd (api_run cfg_pinned srv0 w_hang)) 1 = Some RHang /\
+  nth_error (snd (api_run cfg_pinned srv0 w_panic)) 1 = Some RPanic.
+Proof. vm_compute. repeat split; reflexivity. Qed.
